@@ -366,6 +366,17 @@ func unpaddedLeaves(c *ctx, g *gen, thorough bool) {
 			}
 		}
 	}
+	// fixed-point leaves (outside the identity claim, inside the correspondence): the word present / one byte short
+	for _, t := range []*T{
+		{K: kTuple, Kids: []*T{{K: kUfixed, M: 128, N: 18}}},
+		{K: kTuple, Kids: []*T{{K: kFixed, M: 8, N: 1}}},
+		{K: kTuple, Kids: []*T{{K: kUint, M: 8}, {K: kFixedArr, Len: 2, Elem: &T{K: kUfixed, M: 256, N: 80}}}},
+	} {
+		enc := specEnc(t, minValue(t, minSpec{[]int{1}, 0}, 0))
+		for _, j := range []int{0, 1, 32} {
+			c.addRaw(t, append([]byte{}, enc[:len(enc)-j]...), 0, "unpadded-leaf")
+		}
+	}
 	for m := 1; m <= 32; m++ {
 		if !thorough && m > 4 && m < 30 {
 			continue
